@@ -461,10 +461,15 @@ static size_t hold_frames(const Cell &x, long rate, int key)
 static void scen_single(Ctx &t)
 {
     Inst &I = t.I; const Cell &x = t.x;
+    // panic and reset silence the instance whatever holds the note: in half of those cases the key is down under the sustain pedal
+    // (and marked by sostenuto)
+    const bool pedals = x.scen != S_NOTEOFF && (t.c.k / 5) % 2 == 0;
+    if(pedals) { API("opn2_rt_controllerChange", opn2_rt_controllerChange(I.dev, 0, 64, 127)); t.cfg += "; key held under CC64"; count("panic_or_reset_with_the_pedal_down"); }
     size_t f_on = I.now();
     int rc = 0;
     API("opn2_rt_noteOn", rc = opn2_rt_noteOn(I.dev, 0, (OPN2_UInt8)x.key, 127));
     if(rc != 1) { t.c.violation("oracle:C20:note-rejected:" + t.tag, vfmt("opn2_rt_noteOn returned %d on an idle instance; %s", rc, t.cfg.c_str())); return; }
+    if(pedals && (t.c.k / 10) % 2) API("opn2_rt_controllerChange", opn2_rt_controllerChange(I.dev, 0, 66, 127));
     I.render(hold_frames(x, I.rate, x.key));
     held_clauses(t, f_on, x.key);
     count("notes_measured");
@@ -652,9 +657,27 @@ static void run_case(Case &c)
     t.tag = vfmt("core-%d", x.core);
     c.sig = vfmt("%d|%d|%ld|%d|%d|%s", x.core, x.fam, x.rate, x.pcm, x.chips, SCEN_NAME[x.scen]);
     DBG("case %ld: core %d fam %d rate %ld pcm %d chips %d scen %s key %d\n", c.k, x.core, x.fam, x.rate, x.pcm, x.chips, SCEN_NAME[x.scen], x.key);
+    OPN2_MIDIPlayer *bystander = NULL;
     if(setup(t))
     {
         DBG("  %s\n", t.cfg.c_str());
+        if(c.k % 3 == 0)
+        {   // another instance of the same core is alive next to the measured one, configured after it with another output rate, the
+            // other rate mode and the other chip family: what the measured instance sounds like is its own business (clauses unchanged)
+            long r2 = RATES[(size_t)((c.k / 3) % 9)]; if(r2 == x.rate) r2 = RATES[(size_t)((c.k / 3 + 4) % 9)];
+            API("opn2_init", bystander = opn2_init(r2));
+            if(bystander)
+            {
+                int rb = 0;
+                API("opn2_switchEmulator", rb = opn2_switchEmulator(bystander, x.core));
+                API("opn2_setNumChips", rb = opn2_setNumChips(bystander, 1));
+                API("opn2_setChipType", opn2_setChipType(bystander, 1 - x.fam));
+                API("opn2_setRunAtPcmRate", rb = opn2_setRunAtPcmRate(bystander, (c.k / 9) % 4 ? 1 : 0));
+                short tmp[2 * 48]; API("opn2_generate", rb = opn2_generate(bystander, 2 * 48, tmp)); (void)rb;
+                t.cfg += vfmt("; bystander instance of the same core at %ld Hz", r2);
+                count("cases_with_a_bystander_instance");
+            }
+        }
         if(idle_clause(t))
         {
             if(x.scen == S_PROBE) scen_probe(t);
@@ -666,6 +689,7 @@ static void run_case(Case &c)
     }
     count("frames_rendered", (long long)I.pos());
     count(vfmt("cases_core%d", x.core).c_str());
+    if(bystander) API("opn2_close", opn2_close(bystander));
     if(I.dev) API("opn2_close", opn2_close(I.dev));
     g_cases_done++;
     // one sample per worker, emitted at its 24th case so that the per-core worst values cover more than one case
